@@ -261,3 +261,21 @@ def nextseq_trimmer_call(c):
     )
     c.mutant("len(read) - stop", "len(read) - stop - 1")
     c.mutant("read[:stop]", "read[stop:]")
+
+
+# ------------------------------------------------------------------------------ constructors: the counters start at zero
+@contract("modifiers.py", "QualityTrimmer.__init__", props=["C13"])
+def quality_trimmer_init(c):
+    c.types(self=ObjT("QualityTrimmer"), cutoff_front=Int, cutoff_back=Int, base=Int)
+    c.modifies = ["self"]
+    c.ensures(cutoffs_and_base_stored="self.cutoff_front == cutoff_front and self.cutoff_back == cutoff_back and self.base == base",
+              nothing_removed_yet="self.trimmed_bases == 0")
+    c.mutant("self.cutoff_back = cutoff_back", "self.cutoff_back = cutoff_front")
+
+
+@contract("modifiers.py", "NextseqQualityTrimmer.__init__", props=["C13"])
+def nextseq_trimmer_init(c):
+    c.types(self=ObjT("NextseqQualityTrimmer"), cutoff=Int, base=Int)
+    c.modifies = ["self"]
+    c.ensures(cutoff_and_base_stored="self.cutoff == cutoff and self.base == base", nothing_removed_yet="self.trimmed_bases == 0")
+    c.mutant("self.trimmed_bases = 0", "self.trimmed_bases = 1")
